@@ -122,6 +122,13 @@ bj::object observe_t(const Input& in, const std::vector<int>& primes) {
     for (auto v : K.vertices_range()) { verts.emplace_back(static_cast<std::int64_t>(v)); if (++guard > N) break; }
   }
   o["tops"] = tops; o["verts"] = verts;
+  {   // all_cells_range is 0 .. N-1 in order (for_each_vertex is @private and only meant for the non periodic base: not judged)
+    std::size_t k = 0;
+    bool ok = true;
+    for (auto c : K.all_cells_range()) { if (static_cast<std::size_t>(c) != k) ok = false; if (++k > N) break; }
+    if (k != N) ok = false;
+    if (!ok) o["api_equal"] = false;
+  }
   // get_top_dimensional_coface_of_a_cell (top-cell input) / get_vertex_of_a_cell (vertex input): "a top-dimensional cell
   // [a vertex] that is incident to the input cell and has the same filtration value ... an arbitrary one"
   {
